@@ -305,6 +305,7 @@ func runLifeOnce(c lifeCase) harness.Result {
 	serveReturned := false
 	var serveResult error
 	shutdownDone := false
+	shortFailed := false // an earlier Shutdown ended with its context's error: a later one may report the listener as closed already
 	cancelled := false
 	labels := []string{fmt.Sprintf("callbacks:%d", c.Callbacks)}
 	hasAccept := c.Callbacks&cbAccept != 0
@@ -348,6 +349,9 @@ func runLifeOnce(c lifeCase) harness.Result {
 	for si, st := range steps {
 		if (shutdownDone || cancelled) && st.Op != "idle" {
 			continue
+		}
+		if shortFailed && st.Op != "idle" && st.Op != "shutdown" {
+			continue // the listener is closed already
 		}
 		switch st.Op {
 		case "connect":
@@ -468,10 +472,29 @@ func runLifeOnce(c lifeCase) harness.Result {
 			case <-time.After(10 * time.Second):
 				return fail("step %d: Addr() did not return within 10 s", si)
 			}
+		case "shutdown-short":
+			// a Shutdown whose own context (5 ms) is likely to expire while handlers are still running. Whatever it returns, the
+			// later Shutdown is judged as usual: success only once every started request has been answered and idle connections are closed
+			err, returned := shutdownWithin(s, 5*time.Millisecond)
+			if !returned {
+				return fail("step %d: Shutdown did not return within 5 s after its own context (5 ms) had expired", si)
+			}
+			if err == nil {
+				shutdownDone = true
+				labels = append(labels, "shutdown")
+			} else {
+				shortFailed = true
+				labels = append(labels, "shutdown-context-expired")
+			}
 		case "shutdown":
 			err, returned := shutdownWithin(s, 10*time.Second)
 			if !returned {
 				return fail("step %d: Shutdown did not return within 5 s after its own context (10 s) had expired", si)
+			}
+			if err != nil && shortFailed {
+				// e.g. the listener is reported as closed already: no success, so nothing is promised
+				labels = append(labels, "later-shutdown-error")
+				continue
 			}
 			if err != nil {
 				return fail("step %d: Shutdown returned %v", si, err)
@@ -504,7 +527,7 @@ func runLifeOnce(c lifeCase) harness.Result {
 		if !returned {
 			return fail("final Shutdown did not return within 5 s after its own context (10 s) had expired")
 		}
-		if err != nil && !cancelled {
+		if err != nil && !cancelled && !shortFailed {
 			return fail("final Shutdown returned %v", err)
 		}
 		shutdownDone = err == nil
@@ -642,6 +665,9 @@ func genLife(t *rapid.T) lifeCase {
 		m := rapid.IntRange(0, 2).Draw(t, "ninflight")
 		for i := 0; i < m; i++ {
 			c.Steps = append(c.Steps, step{Op: "inflight", Client: rapid.IntRange(0, k-1).Draw(t, "client"), DelayMs: rapid.SampledFrom([]int{20, 40, 80}).Draw(t, "delay")})
+		}
+		if m > 0 && rapid.IntRange(0, 2).Draw(t, "short_shutdown_first") == 0 {
+			c.Steps = append(c.Steps, step{Op: "shutdown-short"})
 		}
 		c.Steps = append(c.Steps, step{Op: "shutdown"})
 		if m > 0 && rapid.Bool().Draw(t, "slow_write") {
